@@ -381,6 +381,9 @@ class _ETuple(enum.Enum):
     B = (3, 4)
 
 
+FORCE_SPELL = None      # None (random spelling) | 'typing' (typing.List / typing.Union) | 'builtin' (list[...] / X | Y)
+
+
 def build(term, rng=None) -> Built:
     """Build the live typing object and the Coq term of a type term."""
     rng = rng or random
@@ -400,7 +403,7 @@ def build(term, rng=None) -> Built:
         return Built(term, py, '%NOCOQ%')     # outside the Coq model: monitored on pane only
     if k == 'seq':
         e = build(term[2], rng)
-        py = rng.choice(SEQ_SPELL[term[1]])(e.py)
+        py = (SEQ_SPELL[term[1]][{'typing': 0, 'builtin': 1}[FORCE_SPELL]] if FORCE_SPELL else rng.choice(SEQ_SPELL[term[1]]))(e.py)
         KEEP.append(py)
         return Built(term, py, f'(TSeq {SEQ_COQ[term[1]]} {e.coq})')
     if k == 'tuple':
@@ -411,12 +414,13 @@ def build(term, rng=None) -> Built:
         elif not es:
             py = rng.choice([t.Tuple[()], tuple[()]])
         else:
-            py = rng.choice([lambda a: t.Tuple[a], lambda a: tuple[a]])(tuple(e.py for e in es))
+            sp = [lambda a: t.Tuple[a], lambda a: tuple[a]]
+            py = (sp[{'typing': 0, 'builtin': 1}[FORCE_SPELL]] if FORCE_SPELL else rng.choice(sp))(tuple(e.py for e in es))
         KEEP.append(py)
         return Built(term, py, f'(TTuple {coq_list(e.coq for e in es)})')
     if k == 'dict':
         kk, vv = build(term[1], rng), build(term[2], rng)
-        py = rng.choice(DICT_SPELL)(kk.py, vv.py)
+        py = (DICT_SPELL[{'typing': 0, 'builtin': 1}[FORCE_SPELL]] if FORCE_SPELL else rng.choice(DICT_SPELL))(kk.py, vv.py)
         KEEP.append(py)
         return Built(term, py, f'(TDict {kk.coq} {vv.coq})')
     if k == 'struct':
@@ -427,9 +431,9 @@ def build(term, rng=None) -> Built:
     if k == 'union':
         ms = [build(x, rng) for x in term[1]]
         pys = [type(None) if m.py is None else m.py for m in ms]
-        if len(ms) == 2 and term[1][1] == ('none',) and rng.random() < 0.5:
+        if FORCE_SPELL is None and len(ms) == 2 and term[1][1] == ('none',) and rng.random() < 0.5:
             py = t.Optional[pys[0]]
-        elif rng.random() < 0.3:
+        elif FORCE_SPELL == 'builtin' or (FORCE_SPELL is None and rng.random() < 0.3):
             try:
                 py = pys[0]
                 for p in pys[1:]:
